@@ -77,9 +77,14 @@ def r2(run):
     sends = publisher_body(run)
     for c in sends:
         run.ob("%s|broadcast-send" % c.body.def_, c.body.def_ == C.APPEND, c.sp, "broadcast send only from Store::append")
+    wrappers = C.insert_wrappers(facts)
     callers = C.callers_of(facts, C.INSERT_FRAME)
+    for w in wrappers:
+        callers += C.callers_of(facts, w)        # a forwarding wrapper is insert_frame under another name: its callers are audited
     run.floor("Store::insert_frame call sites", len(callers), 2)
     allowed = {C.APPEND: "the append critical section", "xs::api::handle_import": "import: the property excepts imports"}
+    for w in wrappers:
+        allowed[w] = "forwards its own &Frame parameter to insert_frame (its callers are audited instead)"
     for (b, c) in callers:
         fn = facts.enclosing_fn(b)
         run.ob("%s|call:Store::insert_frame" % fn, fn in allowed, c.sp,
